@@ -33,6 +33,10 @@ def jobs(tier):
     for i, (base, free) in enumerate(gen.windows(3, tier)):
         for t in (1, 2) if tier == "quick" else (1, 2, 3):
             J.append(dict(k=3, t=t, free=free, base=base, dtype="bool" if (i + t) % 2 else "int"))
+    for k in (3, 4):
+        for base, free in gen.road_windows(k):
+            for t in (1, 2):
+                J.append(dict(k=k, t=t, free=free, base=base, dtype="int"))
     return J
 
 
@@ -40,7 +44,7 @@ def bounds(tier):
     js = jobs(tier)
     return {"k=1": "all 16 masks x t=1..4 x {int,bool}", "k=2": "%d windows of %d free bits" % (len(gen.windows(2, tier)), len(gen.windows(2, tier)[0][1])),
             "k=3": "%d windows of %d free bits" % (len(gen.windows(3, tier)), len(gen.windows(3, tier)[0][1])),
-            "masks_explored": sum(2 ** len(j["free"]) for j in js), "outside": "masks outside the windows, k >= 4"}
+            "masks_explored": sum(2 ** len(j["free"]) for j in js), "many-round masks": "induced dead-end roads of 15 (k=3) and 26 (k=4) vertices", "outside": "masks outside the windows, k >= 4"}
 
 
 def body(e, L, cfg):
